@@ -284,6 +284,8 @@ var c14cycles = []struct{ desc, body string }{
 	{"augment into itself", "container c { } augment \"/c\" { container c { } } augment \"/c/c\" { uses g; } grouping g { leaf l { type string; } }"},
 	{"augment target is the augment's own child", "augment \"/c/d\" { leaf l { type string; } } container c { } augment \"/c\" { container d { } }"},
 	{"uses of an unknown grouping", "uses nosuch;"},
+	{"statements given twice", "typedef t { type string; default a; default b; } leaf l { type string; default a; default b; units u; units v; description x; description y; } choice c { default a; default a; case a { leaf q { type string; } } } container k { presence a; presence b; config true; config false; }"},
+	{"list with two key statements and leaf with two types", "list l { key a; key b; leaf a { type string; } leaf b { type string; type int8; } }"},
 	{"type of an unknown typedef", "leaf x { type nosuch; }"},
 	{"unknown prefix", "leaf x { type zz:t; } uses zz:g;"},
 	{"deviation of a missing node", "deviation /nosuch { deviate not-supported; }"},
@@ -352,7 +354,7 @@ func C14(c *core.Ctx) {
 		}
 		return files
 	}
-	nMut := c.N(6, 60)
+	nMut := c.N(6, 400)
 	for _, n := range cnames {
 		text := corpus[n]
 		main := strings.TrimSuffix(filepath.Base(n), ".yang")
@@ -369,7 +371,7 @@ func C14(c *core.Ctx) {
 		for i := 0; i < nMut; i++ {
 			k := r.Intn(len(toks))
 			var mut []string
-			kind := core.Pick(r, []string{"truncate", "delete", "duplicate", "substitute", "substitute"})
+			kind := core.Pick(r, []string{"truncate", "delete", "duplicate", "substitute", "substitute", "bytes"})
 			switch kind {
 			case "truncate":
 				mut = toks[:k]
@@ -379,6 +381,19 @@ func C14(c *core.Ctx) {
 				mut = append(append(append([]string{}, toks[:k+1]...), toks[k]), toks[k+1:]...)
 			case "substitute":
 				mut = append(append(append([]string{}, toks[:k]...), core.Pick(r, c14subst)), toks[k+1:]...)
+			case "bytes":
+				// a byte overwritten, dropped or inserted anywhere
+				bs := []byte(text)
+				pos := r.Intn(len(bs))
+				switch r.Intn(3) {
+				case 0:
+					bs[pos] = byte(r.Intn(256))
+				case 1:
+					bs = append(bs[:pos:pos], bs[pos+1:]...)
+				default:
+					bs = append(bs[:pos:pos], append([]byte{core.Pick(r, []byte("{};\"'+/*\\ \n\x00\xff"))}, bs[pos:]...)...)
+				}
+				mut = []string{string(bs)}
 			}
 			f2 := map[string]string{}
 			for k2, v := range files {
@@ -499,6 +514,9 @@ func C14(c *core.Ctx) {
 		b.WriteString("typedef t1000 { type int8; }\nleaf l { type t0; }\n")
 		return b.String()
 	}() + "}"}, Main: "x"})
+	for _, tail := range []string{"leaf a { type string; } x:ext", "leaf a { type string; } x:ext\n}", "leaf a { type string; description", "leaf a { type string; description \"x\" +", "leaf a { type", "container", "x:ext arg", "x:ext 'arg' {", "leaf a { type string; } } }", "import", "revision", "leaf a { type string { pattern"} {
+		add(c14case{Desc: "text cut off: …" + tail, Files: map[string]string{"x": hdr("x") + "extension ext;\n" + tail}, Main: "x"})
+	}
 	add(c14case{Desc: "only white space", Files: map[string]string{"x": "  \n\t "}, Main: "x"})
 	add(c14case{Desc: "empty file", Files: map[string]string{"x": ""}, Main: "x"})
 	add(c14case{Desc: "binary garbage", Files: map[string]string{"x": "\x00\x01\xff\xfe{;}\"\x80"}, Main: "x"})
@@ -550,15 +568,16 @@ func C14(c *core.Ctx) {
 		if last+1 >= len(cases) {
 			break
 		}
-		// the worker died on case last+1 (or the one it had begun)
-		died := last + 1
 		if begun > last {
-			died = begun
+			// the worker died inside the case it had begun
+			if results[begun] == "" {
+				results[begun] = "CRASH worker process died (stack overflow, out of memory or fatal error)"
+			}
+			from = begun + 1
+		} else {
+			// it left after reporting a hang: go on with the next case
+			from = last + 1
 		}
-		if results[died] == "" {
-			results[died] = "CRASH worker process died (stack overflow, out of memory or fatal error)"
-		}
-		from = died + 1
 	}
 	for i, cs := range cases {
 		res := results[i]
